@@ -8,10 +8,14 @@ import (
 	"encoding/json"
 	"errors"
 	"fmt"
+	"io"
 	"net"
 	"reflect"
 	"sync"
 	"sync/atomic"
+	"time"
+
+	"verifharness/internal/design"
 
 	"goa.design/goa/v3/codegen"
 	goa "goa.design/goa/v3/pkg"
@@ -205,7 +209,18 @@ func (gs *grpcState) start() {
 		}
 		return handler(context.WithValue(ctx, stateKey, id), req)
 	}
-	srv := grpc.NewServer(grpc.UnaryInterceptor(unary))
+	streamI := func(srv any, ss grpc.ServerStream, info *grpc.StreamServerInfo, handler grpc.StreamHandler) error {
+		md, _ := metadata.FromIncomingContext(ss.Context())
+		id := "seq"
+		if v := md.Get(idKey); len(v) > 0 {
+			id = v[0]
+		}
+		if w, ok := gs.wires.Load(id); ok {
+			w.(*grpcWire).ServerMD = mdMap(md)
+		}
+		return handler(srv, &ctxStream{ss, context.WithValue(ss.Context(), stateKey, id)})
+	}
+	srv := grpc.NewServer(grpc.UnaryInterceptor(unary), grpc.StreamInterceptor(streamI))
 	for _, s := range gs.services {
 		eps := reflect.ValueOf(s.NewEndpoints).Call([]reflect.Value{reflect.ValueOf(s.Stub)})[0]
 		ns := reflect.ValueOf(s.NewServer)
@@ -243,9 +258,19 @@ func (gs *grpcState) start() {
 		w.Header, w.Trailer = mdMap(h), mdMap(t)
 		return err
 	}
+	cliStream := func(ctx context.Context, desc *grpc.StreamDesc, cc *grpc.ClientConn, method string, streamer grpc.Streamer, opts ...grpc.CallOption) (grpc.ClientStream, error) {
+		id, _ := ctx.Value(stateKey).(string)
+		if x, ok := gs.wires.Load(id); ok {
+			w := x.(*grpcWire)
+			w.Method = method
+			omd, _ := metadata.FromOutgoingContext(ctx)
+			w.ReqMD = mdMap(omd)
+		}
+		return streamer(metadata.AppendToOutgoingContext(ctx, idKey, id), desc, cc, method, opts...)
+	}
 	conn, err := grpc.NewClient("passthrough:///bufnet",
 		grpc.WithContextDialer(func(ctx context.Context, _ string) (net.Conn, error) { return lis.DialContext(ctx) }),
-		grpc.WithTransportCredentials(insecure.NewCredentials()), grpc.WithUnaryInterceptor(cliUnary))
+		grpc.WithTransportCredentials(insecure.NewCredentials()), grpc.WithUnaryInterceptor(cliUnary), grpc.WithStreamInterceptor(cliStream))
 	if err != nil {
 		panic(err)
 	}
@@ -257,9 +282,95 @@ func (gs *grpcState) start() {
 	}
 }
 
-// exec handles the op "gcall": one unary call through the generated gRPC client and server.
+type ctxStream struct {
+	grpc.ServerStream
+	ctx context.Context
+}
+
+func (s *ctxStream) Context() context.Context { return s.ctx }
+
+func (gs *grpcState) clientError(err error) *errInfo {
+	ei := &errInfo{GoType: fmt.Sprintf("%T", err), Message: err.Error()}
+	if n, ok := err.(goa.GoaErrorNamer); ok {
+		ei.Name = n.GoaErrorName()
+	}
+	var se *goa.ServiceError
+	if errors.As(err, &se) {
+		ei.Timeout, ei.Temporary, ei.Fault = &se.Timeout, &se.Temporary, &se.Fault
+		if ei.Name == "" {
+			ei.Name = se.Name
+		}
+	}
+	if st, ok := status.FromError(err); ok {
+		ei.Name = "grpc:" + st.Code().String()
+	}
+	return ei
+}
+
+// stream drives one streaming method: the client sends c.Messages (if the method streams its
+// payload), closes its side, and reads what the server sends until the end of the stream.
+func (gs *grpcState) stream(c *command, obs *observation, id string, s *GRPCServiceInfo, m *design.Method, ep reflect.Value, payload any) {
+	endpoint := ep.Call(nil)[0].Interface().(goa.Endpoint)
+	ctx, cancel := context.WithTimeout(context.WithValue(context.Background(), stateKey, id), 20*time.Second)
+	defer cancel()
+	res, err := endpoint(ctx, payload)
+	if err != nil {
+		obs.ClientError = gs.clientError(err)
+		return
+	}
+	sv := reflect.ValueOf(res)
+	if send := sv.MethodByName("Send"); send.IsValid() {
+		for _, msg := range c.Messages {
+			v, err := gs.rt.FromJSON(m.Payload, msg, send.Type().In(0))
+			if err != nil {
+				obs.Harness = "cannot build streamed message: " + err.Error()
+				return
+			}
+			if e, _ := send.Call([]reflect.Value{v})[0].Interface().(error); e != nil {
+				obs.ClientError = gs.clientError(e)
+				obs.ClientError.Message = "send: " + obs.ClientError.Message
+				break
+			}
+		}
+	}
+	if car := sv.MethodByName("CloseAndRecv"); car.IsValid() {
+		out := car.Call(nil)
+		if e, _ := out[1].Interface().(error); e != nil {
+			obs.ClientError = gs.clientError(e)
+			return
+		}
+		obs.ClientResult = gs.rt.ToJSON(m.Result, out[0])
+		return
+	}
+	recv := sv.MethodByName("Recv")
+	if cl := sv.MethodByName("Close"); cl.IsValid() {
+		if e, _ := cl.Call(nil)[0].Interface().(error); e != nil && !recv.IsValid() {
+			obs.ClientError = gs.clientError(e)
+			return
+		}
+	}
+	if recv.IsValid() {
+		for {
+			out := recv.Call(nil)
+			if e, _ := out[1].Interface().(error); e != nil {
+				if e != io.EOF {
+					obs.ClientError = gs.clientError(e)
+				}
+				break
+			}
+			j := gs.rt.ToJSON(m.Result, out[0])
+			if j == nil {
+				j = "<nil>"
+			}
+			obs.ClientStreamed = append(obs.ClientStreamed, j)
+		}
+	}
+}
+
+// exec handles the ops "gcall" (one unary call) and "gstream" (one streaming call) through the
+// generated gRPC client and server.
 func (gs *grpcState) exec(c *command, obs *observation, id string) bool {
-	if c.Op != "gcall" {
+	if c.Op != "gcall" && c.Op != "gstream" {
 		return false
 	}
 	s := gs.services[c.Service]
@@ -292,6 +403,10 @@ func (gs *grpcState) exec(c *command, obs *observation, id string) bool {
 	defer gs.wires.Delete(id)
 	obs.Wire = nil
 	obs.GRPC = w
+	if c.Op == "gstream" {
+		gs.stream(c, obs, id, s, m, ep, payload)
+		return true
+	}
 	endpoint := ep.Call(nil)[0].Interface().(goa.Endpoint)
 	res, err := endpoint(context.WithValue(context.Background(), stateKey, id), payload)
 	if err != nil {
